@@ -402,6 +402,11 @@ func (m *Master) stream(c net.Conn, pc *pconn, p *ServePlan, rec *ConnRecord, d 
 			}
 			frame(append([]byte{0}, pk...))
 			framed = i + 1
+			// count the packet as sent BEFORE the write: the peer may receive and process it before Write returns
+			// (the C02 causal monitor needs "the master has started sending it")
+			rec.mu.Lock()
+			rec.Sent = i + 1
+			rec.mu.Unlock()
 			if err := flush(); err != nil {
 				<-rec.PeerClosed
 				c.Close()
